@@ -35,6 +35,7 @@ def dispatch (l : Line) : List Verdict :=
   | "proxycmds" => handleProxyCmds l
   | "cb" => handleCb l
   | "idtok" => handleIdTok l
+  | "idtokburst" => handleIdTokBurst l
   | "login13" => handleLogin13 l
   | "fresh13" => handleFresh13 l
   | "burst13" => handleBurst13 l
@@ -56,6 +57,7 @@ def dispatch (l : Line) : List Verdict :=
   | "cookiedec" => handleCookieDec l
   | "tamper09" => handleTamper09 l
   | "relogin09" => handleRelogin09 l
+  | "concurrent09" => handleConcurrent09 l
   | "outscan" => handleOutScan l
   | "url04" => handleUrl04 l
   | "esc04" => handleEsc04 l
